@@ -127,7 +127,7 @@ func main() {
 			cases = append(cases, zeroBodyLast(f, nl))
 		}
 	}
-	n := vkit.N(2000, 50000)
+	n := vkit.N(6000, 60000)
 	formats := []string{"uri", "uripost", "raw", "jsonline"}
 	for i := 0; i < n; i++ {
 		c := Case{File: vkit.GenAmmoFile(rng, formats[rng.Intn(4)], 8, 1), Passes: 1 + rng.Intn(3), Preload: rng.Intn(4) == 0}
